@@ -308,11 +308,43 @@ static void checkPair(const Mode& m, const RefInfo& ri, const Obs& a, const Obs&
   normArbs(a, na, &la);
   normArbs(b, nb, &lb);
   if (la != lb || memcmp(na, nb, la)) {
-    // shape of the difference: which state is missing / replaced
-    string cls = resultBeforeReset(ri.alts[0]) ? "result-before-reset" : ri.cls;
-    int i = 0;
-    while (i < la && i < lb && na[i] == nb[i]) i++;
-    cls += string("-") + (i < la ? arbName(na[i]) : "none") + "-vs-" + (i < lb ? arbName(nb[i]) : "none");
+    // input class.  "result-before-reset": one execution reports exactly the won/lost results of the
+    // reference and the other one lacks only results that a RESETTED frame follows before the next
+    // symbol.  Otherwise the class names the first differing pair of states.
+    vector<uint8_t> want;       // reference results in order
+    vector<bool> wantBR;        // ... followed by a RESETTED frame before the next symbol
+    {
+      const ref::Events& ev = ri.alts[0];
+      for (size_t i = 0; i < ev.size(); i++) {
+        if (ev[i].kind != ref::K_SYM || !(ev[i].sym & (ref::WON | ref::LOST))) continue;
+        bool br = false;
+        for (size_t j = i + 1; j < ev.size() && ev[j].kind != ref::K_SYM; j++) if (ev[j].kind == ref::K_RESET) br = true;
+        want.push_back((ev[i].sym & ref::WON) ? ebusd::as_won : ebusd::as_lost);
+        wantBR.push_back(br);
+      }
+    }
+    auto results = [](const uint8_t* v, int n) {
+      vector<uint8_t> r;
+      for (int i = 0; i < n; i++) if (v[i] == ebusd::as_won || v[i] == ebusd::as_lost) r.push_back(v[i]);
+      return r;
+    };
+    vector<uint8_t> ra = results(na, la), rb = results(nb, lb);
+    std::function<bool(const vector<uint8_t>&, size_t, size_t)> explained = [&](const vector<uint8_t>& g, size_t gi, size_t k) -> bool {
+      if (k == want.size()) return gi == g.size();
+      if (gi < g.size() && g[gi] == want[k] && explained(g, gi + 1, k + 1)) return true;
+      return wantBR[k] && explained(g, gi, k + 1);
+    };
+    string cls;
+    if (ra != rb && ((ra == want && explained(rb, 0, 0)) || (rb == want && explained(ra, 0, 0)))) {
+      cls = "result-before-reset";
+    } else {
+      int i = 0;
+      while (i < la && i < lb && na[i] == nb[i]) i++;
+      const char* x = i < la ? arbName(na[i]) : "none";
+      const char* y = i < lb ? arbName(nb[i]) : "none";
+      if (strcmp(x, y) > 0) std::swap(x, y);  // independent of which execution is the baseline
+      cls = string(ri.cls) + "-" + x + "-vs-" + y;
+    }
     out->push_back({"chunk-arb", cls, "terminal arbitration states differ (error/timeout directly followed by won/lost ignored): " + arbsOf(a) + " vs " + arbsOf(b)});
   }
 }
